@@ -106,7 +106,7 @@ def read_schema() -> Dict[str, Any]:
     todo = [cn for cn in c04.SCAL if cn not in c04.ALT.values()]
     seen = set()
     for cn in todo:
-        dao = get_dao_class(getattr(ex, cn))
+        dao = get_dao_class(c04.class_of(cn))
         chain = [c for c in dao.__mro__ if isinstance(c, type) and issubclass(c, Base) and c is not Base]
         for i, c in enumerate(chain):
             oc = c.original_class().__name__
@@ -299,24 +299,250 @@ def explain(descr) -> str:
                        "assoc_counts": {k: v for k, v in (res.get("assoc_counts") or {}).items() if v}}, default=str)
 
 
+# ----------------------------------------------------------------------------- freshly generated class models
+def gen_model(rng: core.Rng, idx: int) -> Dict[str, Any]:
+    """A random class model inside the documented grammar: 2..5 dataclasses, single inheritance up to depth 3, per class an
+    int column plus 0..2 further scalar fields, 0..2 Optional single references and 0..2 List collections to any class
+    of the model (own class and own hierarchy included for single references).  Excluded (C06's known generator defects):
+    List of the own class (C06-a), models without a builtin column (C06-b), x / x_id name pairs, reserved names."""
+    ncls = rng.randint(2, 5)
+    names = [f"G{idx}c{i}" for i in range(ncls)]
+    base: Dict[str, Any] = {}
+    depth: Dict[str, int] = {}
+    for i, n in enumerate(names):
+        cands = [m for m in names[:i] if depth[m] < 2]
+        base[n] = rng.choice(cands) if cands and rng.chance(0.45) else None
+        depth[n] = 0 if base[n] is None else depth[base[n]] + 1
+    own: Dict[str, List[Tuple[str, str, str]]] = {}
+    for i, n in enumerate(names):
+        fl = [(f"a{i}", "scalar", "int")]
+        for j in range(rng.randint(0, 2)):
+            fl.append((f"s{i}_{j}", "scalar", rng.choice(["int", "float", "str", "bool", "Optional[float]", "Optional[int]", "List[str]"])))
+        def mro_of(x):
+            return (mro_of(base[x]) if base[x] else []) + [x]
+        outside = [m for m in names if m not in mro_of(n) and n not in (mro_of(m) if m in base else [m])]
+        for j in range(rng.randint(0, 2)):
+            fl.append((f"r{i}_{j}", "one", rng.choice(outside) if outside and rng.chance(0.75) else rng.choice(names)))
+        for j in range(rng.randint(0, 2)):
+            tg = [m for m in names if m != n]
+            fl.append((f"l{i}_{j}", "many", rng.choice(tg)))
+        own[n] = fl
+    return {"idx": idx, "names": names, "base": base, "own": own}
+
+
+def model_source(md) -> str:
+    dflt = {"int": "0", "float": "0.0", "str": "''", "bool": "False", "Optional[float]": "None", "Optional[int]": "None",
+            "List[str]": "field(default_factory=list)"}
+    out = ["from __future__ import annotations", "from dataclasses import dataclass, field", "from typing import List, Optional", "", ""]
+    for n in md["names"]:
+        out.append("@dataclass(eq=False)")
+        out.append(f"class {n}({md['base'][n]}):" if md["base"][n] else f"class {n}:")
+        for f, kind, t in md["own"][n]:
+            if kind == "scalar":
+                out.append(f"    {f}: {t} = {dflt[t]}")
+            elif kind == "one":
+                out.append(f"    {f}: Optional[{t}] = None")
+            else:
+                out.append(f"    {f}: List[{t}] = field(default_factory=list)")
+        out += ["", ""]
+    return "\n".join(out)
+
+
+def install_model(md, workdir) -> None:
+    """Worker side: write the model, let the working tree's ORMatic generate its layer, import both, and make the model
+    the class table of harness/c04.py (relationship order taken from the real mappers)."""
+    import importlib
+    import sys
+    import sqlalchemy
+    from sqlalchemy.orm import configure_mappers
+    from krrood.class_diagrams.class_diagram import ClassDiagram
+    from krrood.ormatic.ormatic import ORMatic
+    from krrood.ormatic.dao import get_dao_class
+    modname = f"verif_gm_{md['idx']}"
+    (workdir / f"{modname}.py").write_text(model_source(md))
+    sys.path.insert(0, str(workdir))
+    mod = importlib.import_module(modname)
+    classes = [getattr(mod, n) for n in md["names"]]
+    o = ORMatic(ClassDiagram(classes))
+    o.make_all_tables()
+    with open(workdir / f"{modname}_dao.py", "w") as f:
+        o.to_sqlalchemy_file(f)
+    importlib.import_module(modname + "_dao")
+    configure_mappers()
+    names, base, own = md["names"], md["base"], md["own"]
+
+    def mro(n):
+        return (mro(base[n]) if base[n] else []) + [n]
+    subs_of = {n: [m for m in names if n in mro(m)] for n in names}
+    c04.MODEL_MODULE, c04.INTERFACE_MODULE = modname, modname + "_dao"
+    c04.ALT, c04.ALTBASE, c04.SUB = {}, set(), subs_of
+    c04.SCAL = {n: [f for c in mro(n) for f, k, _t in own[c] if k == "scalar"] for n in names}
+    c04.SCAL_TYPES = {n: {f: t for c in mro(n) for f, k, t in own[c] if k == "scalar"} for n in names}
+    info = {n: {f: (k, t) for c in mro(n) for f, k, t in own[c] if k != "scalar"} for n in names}
+    c04.REFS = {}
+    for n in names:
+        keys = [r.key for r in sqlalchemy.inspect(get_dao_class(getattr(mod, n))).relationships]
+        missing = set(info[n]) - set(keys)
+        if missing:
+            raise RuntimeError(f"{n}: no relationship generated for reference fields {sorted(missing)}")
+        c04.REFS[n] = [(k, info[n][k][0], info[n][k][1], True) for k in keys if k in info[n]]
+    c04.CLASS_ID = {n: i + 1 for i, n in enumerate(names)}
+    c04.ROOT_KINDS = list(names)
+
+
+def _worker_main(argv) -> int:
+    """python -m harness.c05 --worker <seed> <idx> <ncases> <model_ok> <outfile>: one generated model, its graphs, one JSON line per case."""
+    seed, idx, ncases, model_ok, outfile = int(argv[0]), int(argv[1]), int(argv[2]), argv[3] == "1", argv[4]
+    d = core.WORK / PROP / "genmodels"
+    d.mkdir(parents=True, exist_ok=True)
+    rng = core.Rng(seed).fork(1000 + idx)
+    md = gen_model(rng.fork(0), idx)
+    out = {"model": md, "cases": []}
+    try:
+        install_model(md, d)
+        sc = read_schema()
+        out["schema"] = {"tables": len(sc["tables"]), "assoc": len(sc["assoc"]), "selfref": len(sc["selfref"]),
+                         "depth": max(len(_chain_ids(c, sc["parent"])) for c in sc["tables"])}
+    except Exception as e:  # noqa
+        out["setup_error"] = f"{type(e).__name__}: {str(e)[:300]}"
+        open(outfile, "w").write(json.dumps(out, default=str))
+        return 0
+    for i in range(ncases):
+        dsc = gen_graph(rng.fork(i + 1), 10)
+        m = prepare_case(dsc, f"model{idx}:gen:{i}", sc, model_ok)
+        if m["res"].get("py_iso") is not None and m["ft"]["selfref_shared"] and "_back" in m["res"]:
+            m["admissible"] = matches_admissible(dsc, m["res"]["_back"])
+        m["res"].pop("_back", None)
+        m["source"] = model_source(md)
+        out["cases"].append(m)
+    open(outfile, "w").write(json.dumps(out, default=str))
+    return 0
+
+
 # ----------------------------------------------------------------------------- the check
+def prepare_case(d: dict, org: str, sc, model_ok: bool) -> Dict[str, Any]:
+    tables, tags = sorted(sc["tables"]), sorted(sc["assoc"])
+    zl = lambda xs: "[" + "; ".join(f"{x}%Z" for x in xs) + "]"
+    ft = features(d)
+    res = run_impl(d)
+    heap, r, anom = c04.input_heap(d)
+    m = {"descr": d, "origin": org, "ft": ft, "res": res, "anomalies": anom, "expr": None,
+         "nroot": None if "exc" in res else sum(v for t, v in res["table_counts"].items() if t not in sc["parent"]),
+         "root_class": d["objs"][d["root"]]["c"]}
+    if "exc" not in res:
+        counts = core.sx([[res["table_counts"][t] for t in tables], [res["assoc_counts"][t] for t in tags]])
+        a_in = f"{c04.heap_term(heap5(heap))} {r}%nat"
+        a_out = f"{c04.heap_term(heap5(res['heap']))} {res['root']}%nat"
+        m["expr"] = (f"case_code5 {schema_term(sc)} {c04.alts_term()} {zl(tables)} {zl(tags)} {a_in} {a_out} ({counts})" if model_ok
+                     else f"case_code_spec {a_in} {a_out}")
+        m["table_counts_nz"] = {str(k): v for k, v in res["table_counts"].items() if v}
+    return m
+
+
+def decide(rep: Report, m: Dict[str, Any], v, model_ok: bool, inst: Dict[str, int], tallies: Dict[str, int], bad: list) -> None:
+    res, ft = m["res"], m["ft"]
+    if "exc" in res:
+        bad.append((m, f"exception {res['exc']}"))
+        return
+    code, frag, wf = v[0], v[1], v[2]
+    rows_ok = v[3] if len(v) > 3 else 1
+    m["code"] = code
+    in_f = model_ok and frag == 7
+    tallies["in_F"] += 1 if in_f else 0
+    if wf != 1:
+        rep.oblige("harness:wf", False, f"{m['origin']}: dumped heap is not closed")
+        return
+    if model_ok and not (frag & 2):
+        rep.oblige("harness:schema", False, f"{m['origin']}: the DAO graph of the model does not fit the schema read from the mappers (wf_dao false)")
+    if (code in (0, 1)) != (res["py_iso"] is None):
+        rep.oblige("harness:comparators", False, f"{m['origin']}: canon says {'equal' if code in (0, 1) else 'different'}, python bisimulation says {res['py_iso']}")
+    # (c) exactly one root row per object
+    if m["nroot"] != ft["n"]:
+        bad.append((m, f"{m['nroot']} rows in the root tables for {ft['n']} objects"))
+        return
+    # (d) loading through the other classes of the chain
+    if res["chain_disagree"]:
+        bad.append((m, f"loading through a base DAO class gives a different graph: {res['chain_disagree']}"))
+        return
+    # (b) rows per table
+    if model_ok and rows_ok != 1:
+        if in_f:
+            bad.append((m, "rows per table differ from the model's flush inside the fragment"))
+            return
+        rep.note(f"{m['origin']}: rows per table differ from the model's flush (outside F05)")
+    if code == 0:
+        return
+    if code == 1:
+        if in_f:
+            rep.oblige("correspondence:model", False, f"{m['origin']}: impl = spec but the model differs inside the fragment (contradicts C05_reload)")
+        else:
+            tallies["stale"] += 1
+        return
+    if code in (2, 3) and not in_f:
+        altc = ft["altcycle"] and not (frag & 1)
+        # exact instance: the implementation fails exactly as the faithful model predicts
+        if code == 2 and (ft["repeated_elems"] or ft["selfref_shared"] or altc):
+            for k, on in (("C05-b", ft["repeated_elems"]), ("C05-a", ft["selfref_shared"]), ("C04-a", altc)):
+                inst[k] += 1 if on else 0
+            return
+        # C05-a is INEXACT in the model: which of the sources sharing a target keeps its link depends on SQLAlchemy's
+        # unit-of-work order (sets of states, id()-dependent).  Accept exactly the admissible outcomes.
+        if ft["selfref_shared"]:
+            adm = m["admissible"] if "admissible" in m else matches_admissible(m["descr"], res["_back"])
+            if adm:
+                inst["C05-a"] += 1
+                tallies["inexact"] += 1
+                inst["C05-b"] += 1 if ft["repeated_elems"] else 0
+                return
+        if altc and "Mapping" in (res["py_iso"] or "") and not ft["selfref_shared"]:
+            inst["C04-a"] += 1     # combined with another class: the difference found is the mapping object of C04-a
+            return
+    bad.append((m, f"code {code} frag {frag}: {res['py_iso']}"))
+
+
+DIST_KEYS = (("shared>0", "shared"), ("cyclic>0", "cyclic_objs"), ("none>0", "none_refs"), ("empty_coll>0", "empty_colls"),
+             ("repeated_elem>0", "repeated_elems"), ("subclass_in_base_field>0", "subclass_in_base_field"), ("alt>0", "alt_objs"),
+             ("altbase>0", "altbase_objs"), ("selfref_values>0", "selfref_values"), ("selfref_shared>0", "selfref_shared"))
+
+
+def tally(dist, m):
+    ft = m["ft"]
+    dist["n"][ft["n"]] = dist["n"].get(ft["n"], 0) + 1
+    dist["root_class"][m["root_class"]] = dist["root_class"].get(m["root_class"], 0) + 1
+    for k, key in DIST_KEYS:
+        dist[k] += 1 if ft[key] else 0
+    dist["altcycle"] += 1 if ft["altcycle"] else 0
+    if "via" in m["res"]:
+        n = len(m["res"]["via"])
+        dist["chain_len"][n] = dist["chain_len"].get(n, 0) + 1
+
+
+def new_dist():
+    d = {"n": {}, "root_class": {}, "chain_len": {}, "altcycle": 0}
+    d.update({k: 0 for k, _ in DIST_KEYS})
+    return d
+
+
 def run(tier: str, seed: int, replay=None) -> int:
     rep = Report(PROP, tier, seed, "other")
     rep.trusted = core.COQ_TRUSTED + [
         "MODELLED, compared per run, not proved: SQLAlchemy 2.0 (declarative joined-table inheritance, flush with post_update, "
-        "relationship direction inference, secondary tables written as sets of pairs, polymorphic load through any class of the chain, "
+        "relationship direction inference, secondary tables, uniquing of collection loads, polymorphic load through any class of the chain, "
         "lazy loading) and SQLite; type coercion of Float/String/JSON/Enum/DateTime/custom TypeDecorator columns",
         "hand-written models Orm/ObjGraphWalk.v (to_dao/from_dao) and Orm/Rows.v (schema, flush, load); the schema parameter "
         "(parent tables, own data columns, relationship order, ONETOMANY single references) is read from the real mappers on every run",
-        "harness/c04.py (class table, builder, heap dump, scalar interning with numbers by value, python bisimulation) and harness/c05.py",
+        "harness/c04.py (class table, builder, heap dump, scalar interning with numbers by value, python bisimulation) and harness/c05.py "
+        "(incl. the generator of class models and the admissible-outcome matcher for the inexact class K_selfref)",
         "user code of the dataset (alternative mappings, ConceptType decorator, __post_init__) is run, not modelled",
     ]
-    rep.assume = ["primary keys: any assignment injective per hierarchy (theorem); the run uses SQLite's AUTOINCREMENT-like rowids",
-                  "collections are compared in order; the statement only asks for the same elements, an order-only difference would be reported as a note"]
-    rep.rule = ("C04's generator (rooted graphs over 22 dataset classes, 1..10 objects, sharing, cycles, None, empty collections, subclass "
-                "instances in base-typed fields, alt-mapped objects) with repeated collection elements removed in 80% of the cases; every case: fresh "
-                "in-memory SQLite engine, commit in session 1, Session.get in a new session through EVERY DAO class of the root's chain; "
-                "distinct = distinct graph descriptions; non-trivial = at least 2 objects")
+    rep.assume = ["primary keys: any assignment injective per hierarchy (theorem); the run uses SQLite's rowids",
+                  "collections are compared in order; the statement only asks for the same elements, but no order difference has ever been observed"]
+    rep.rule = ("(1) dataset: C04's generator (rooted graphs over 24 dataset classes, 1..10 objects, sharing, cycles, None, empty collections, subclass "
+                "instances in base-typed fields, alt-mapped objects, TypeType / ConceptType / JSON / enum / datetime columns) with repeated collection "
+                "elements removed in 80% of the cases; (2) freshly generated class models (2..5 classes, inheritance depth <= 3, scalar/Optional/JSON-list "
+                "columns, single references and collections into any class incl. the own hierarchy), one subprocess per model: ORMatic generates the layer, "
+                "same graph generator.  Every case: fresh in-memory SQLite engine from krrood's create_engine, commit in session 1, Session.get in a new "
+                "session through EVERY DAO class of the root's chain.  distinct = distinct graph descriptions; non-trivial = at least 2 objects")
     ok_spec, log = core.coq_make(["Base/Sx.vo", "Orm/IsoCanon.vo"])
     rep.oblige("build:spec", ok_spec, "" if ok_spec else core.first_error(log))
     model_ok = core.standard_proof_steps(rep, PROP, ["Props/C05.vo"])
@@ -331,14 +557,16 @@ def run(tier: str, seed: int, replay=None) -> int:
     except Exception as e:  # noqa
         rep.oblige("impl:dataset-layer", False, f"{type(e).__name__}: {e}")
         return rep.finish()
-    tables = sorted(sc["tables"])
-    tags = sorted(sc["assoc"])
-    zl = lambda xs: "[" + "; ".join(f"{x}%Z" for x in xs) + "]"
 
     findings = core.load_findings(PROP)
     descrs: List[dict] = []
     origin: List[str] = []
+    nmodels, per_model = 0, 0
     if replay is not None:
+        if "model_source" in replay:
+            rep.note("this replay belongs to a generated class model; its source is in the replay file (model_source); "
+                     "re-run it with: python -m harness.c05 --worker <seed> <model idx> <n> 1 <out>")
+            return rep.finish()
         descrs, origin = [replay["case"]], ["replay"]
     else:
         cdir = core.VERIF / "corpus" / PROP
@@ -346,142 +574,109 @@ def run(tier: str, seed: int, replay=None) -> int:
             descrs.append(json.loads(f.read_text())["case"])
             origin.append(f"corpus/{PROP}/{f.name}")
         rng = core.Rng(seed).fork(5)
-        ncases = 400 if tier == "quick" else 5000
+        ncases = 300 if tier == "quick" else 4000
+        nmodels, per_model = (6, 30) if tier == "quick" else (24, 120)
         for i in range(ncases):
             descrs.append(gen_graph(rng.fork(i), 10 if tier == "quick" or i % 4 else 16))
             origin.append(f"gen:{i}")
 
-    dist = {"n": {}, "root_class": {}, "chain_len": {}, "shared>0": 0, "cyclic>0": 0, "none>0": 0, "empty_coll>0": 0, "repeated_elem>0": 0,
-            "subclass_in_base_field>0": 0, "alt>0": 0, "altbase>0": 0, "altcycle": 0, "selfref_values>0": 0, "selfref_shared>0": 0, "in_F": 0}
-    metas, exprs = [], []
+    # generated models: workers run while the dataset cases are executed here
+    procs = []
+    gdir = core.WORK / PROP / "genmodels"
+    gdir.mkdir(parents=True, exist_ok=True)
+    import subprocess
+    for j in range(nmodels):
+        outf = gdir / f"out_{j}.json"
+        if outf.exists():
+            outf.unlink()
+        procs.append((j, outf, subprocess.Popen([core.PY, "-m", "harness.c05", "--worker", str(seed), str(j), str(per_model), "1" if model_ok else "0", str(outf)],
+                                                cwd=str(core.VERIF), env=core.IMPL_ENV, stdout=subprocess.DEVNULL, stderr=subprocess.PIPE, text=True)))
+
+    dist = new_dist()
+    metas: List[Dict[str, Any]] = []
     for d, org in zip(descrs, origin):
-        ft = features(d)
-        res = run_impl(d)
-        heap, r, anom = c04.input_heap(d)
-        if anom:
-            rep.oblige("harness:dump", False, f"{org}: {anom}")
-        rep.count(json.dumps(d, sort_keys=True), ft["n"] >= 2)
-        dist["n"][ft["n"]] = dist["n"].get(ft["n"], 0) + 1
-        rc = d["objs"][d["root"]]["c"]
-        dist["root_class"][rc] = dist["root_class"].get(rc, 0) + 1
-        for k, key in (("shared>0", "shared"), ("cyclic>0", "cyclic_objs"), ("none>0", "none_refs"), ("empty_coll>0", "empty_colls"),
-                       ("repeated_elem>0", "repeated_elems"), ("subclass_in_base_field>0", "subclass_in_base_field"), ("alt>0", "alt_objs"),
-                       ("altbase>0", "altbase_objs"), ("selfref_values>0", "selfref_values"), ("selfref_shared>0", "selfref_shared")):
-            dist[k] += 1 if ft[key] else 0
-        dist["altcycle"] += 1 if ft["altcycle"] else 0
-        if "via" in res:
-            dist["chain_len"][len(res["via"])] = dist["chain_len"].get(len(res["via"]), 0) + 1
-        m = {"descr": d, "origin": org, "ft": ft, "res": res, "heap": heap, "root": r}
+        m = prepare_case(d, org, sc, model_ok)
+        if m["anomalies"]:
+            rep.oblige("harness:dump", False, f"{org}: {m['anomalies']}")
+        rep.count(json.dumps(d, sort_keys=True), m["ft"]["n"] >= 2)
+        tally(dist, m)
         metas.append(m)
-        if "exc" in res:
+
+    gdist = new_dist()
+    gen_info = {"models": 0, "setup_errors": [], "schemas": []}
+    for j, outf, pr in procs:
+        try:
+            _, err = pr.communicate(timeout=900)
+        except subprocess.TimeoutExpired:
+            pr.kill()
+            err = "timeout"
+        if not outf.exists():
+            rep.oblige(f"genmodel:{j}", False, f"worker produced no output: {(err or '')[-300:]}")
             continue
-        counts = core.sx([[res["table_counts"][t] for t in tables], [res["assoc_counts"][t] for t in tags]])
-        a_in = f"{c04.heap_term(heap5(heap))} {r}%nat"
-        a_out = f"{c04.heap_term(heap5(res['heap']))} {res['root']}%nat"
-        if model_ok:
-            exprs.append((len(metas) - 1, f"case_code5 {schema_term(sc)} {c04.alts_term()} {zl(tables)} {zl(tags)} {a_in} {a_out} ({counts})"))
-        else:
-            exprs.append((len(metas) - 1, f"case_code_spec {a_in} {a_out}"))
+        o = json.loads(outf.read_text())
+        if "setup_error" in o:
+            # a model inside the documented grammar that ORMatic cannot turn into a working layer is C06's concern; recorded, not judged here
+            gen_info["setup_errors"].append({"model": j, "error": o["setup_error"]})
+            continue
+        gen_info["models"] += 1
+        gen_info["schemas"].append(o["schema"])
+        for m in o["cases"]:
+            m["generated"] = True
+            rep.count(m["origin"] + json.dumps(m["descr"], sort_keys=True), m["ft"]["n"] >= 2)
+            tally(gdist, m)
+            metas.append(m)
+
     if not model_ok:
         rep.note("model not available; comparing the implementation with the Spec only (search for a failing input)")
+    idx = [i for i, m in enumerate(metas) if m["expr"]]
     try:
-        vals = core.coq_values(PROP, HEADER if model_ok else HEADER_SPEC, [e for _, e in exprs], chunk=40)
+        vals = core.coq_values(PROP, HEADER if model_ok else HEADER_SPEC, [metas[i]["expr"] for i in idx], chunk=40)
     except core.CoqEvalError as e:
         rep.oblige("correspondence:evaluate", False, str(e)[:400])
         return rep.finish()
-    codes = {i: v for (i, _), v in zip(exprs, vals)}
+    codes = dict(zip(idx, vals))
 
     inst = {"C05-a": 0, "C05-b": 0, "C04-a": 0}
-    stale = 0
-    inexact = 0
+    tallies = {"in_F": 0, "stale": 0, "inexact": 0}
     bad: List[Tuple[dict, str]] = []
     for i, m in enumerate(metas):
-        res, ft = m["res"], m["ft"]
-        if "exc" in res:
-            bad.append((m, f"exception {res['exc']}"))
-            continue
-        v = codes[i]
-        code, frag, wf = v[0], v[1], v[2]
-        rows_ok = v[3] if len(v) > 3 else 1
-        m["code"] = code
-        in_f = model_ok and frag == 7
-        dist["in_F"] += 1 if in_f else 0
-        if wf != 1:
-            rep.oblige("harness:wf", False, f"{m['origin']}: dumped heap is not closed")
-            continue
-        if model_ok and not (frag & 2):
-            rep.oblige("harness:schema", False, f"{m['origin']}: the DAO graph of the model does not fit the schema read from the mappers (wf_dao false)")
-        if (code in (0, 1)) != (res["py_iso"] is None):
-            rep.oblige("harness:comparators", False, f"{m['origin']}: canon says {'equal' if code in (0, 1) else 'different'}, python bisimulation says {res['py_iso']}")
-        # (c) one root row per object (Symbol is the root table of every generated class)
-        if res["table_counts"].get(SYMBOL_ID) != ft["n"]:
-            bad.append((m, f"{res['table_counts'].get(SYMBOL_ID)} rows in the root table for {ft['n']} objects"))
-            continue
-        # (d) loading through the other classes of the chain
-        if res["chain_disagree"]:
-            bad.append((m, f"loading through a base DAO class gives a different graph: {res['chain_disagree']}"))
-            continue
-        # (b) rows per table
-        if model_ok and rows_ok != 1:
-            if in_f:
-                bad.append((m, "rows per table differ from the model's flush inside the fragment"))
-                continue
-            rep.note(f"{m['origin']}: rows per table differ from the model's flush (outside F05)")
-        if code == 0:
-            continue
-        if code == 1:
-            if in_f:
-                rep.oblige("correspondence:model", False, f"{m['origin']}: impl = spec but the model differs inside the fragment (contradicts C05_reload)")
-            else:
-                stale += 1
-            continue
-        if code in (2, 3) and not in_f:
-            # exact instance: the implementation fails exactly as the faithful model predicts
-            if code == 2 and (ft["repeated_elems"] or ft["selfref_shared"] or (ft["altcycle"] and not (frag & 1))):
-                for k, on in (("C05-b", ft["repeated_elems"]), ("C05-a", ft["selfref_shared"]), ("C04-a", ft["altcycle"] and not (frag & 1))):
-                    inst[k] += 1 if on else 0
-                continue
-            # C05-a is INEXACT in the model: which of the sources sharing a target keeps its link depends on SQLAlchemy's
-            # unit-of-work order (sets of states, id()-dependent).  Accept exactly the admissible outcomes.
-            if ft["selfref_shared"] and matches_admissible(m["descr"], res["_back"]):
-                inst["C05-a"] += 1
-                inexact += 1
-                inst["C05-b"] += 1 if ft["repeated_elems"] else 0
-                continue
-            if ft["altcycle"] and not (frag & 1) and "Mapping" in (res["py_iso"] or "") and not ft["selfref_shared"]:
-                inst["C04-a"] += 1     # combined with another class: the difference found is the mapping object of C04-a
-                continue
-        bad.append((m, f"code {code} frag {frag}: {res['py_iso']}"))
-    if stale:
-        rep.note(f"{stale} cases outside the fragment where impl = spec but the model predicts a failure (model inexact there / finding repaired)")
-    rep.extra["distribution"] = dist
+        decide(rep, m, codes.get(i), model_ok, inst, tallies, bad)
+    if tallies["stale"]:
+        rep.note(f"{tallies['stale']} cases outside the fragment where impl = spec but the model predicts a failure (model inexact there / finding repaired)")
+    dist["in_F"] = tallies["in_F"]
+    rep.extra["distribution"] = {"dataset": dist, "generated_models": gdist, "generated_model_info": gen_info}
     rep.extra["known_finding_instances"] = inst
-    rep.extra["inexact_model_instances"] = {"C05-a": inexact, "note": "the surviving link among sources sharing a self-referential target depends on "
+    rep.extra["inexact_model_instances"] = {"C05-a": tallies["inexact"], "note": "the surviving link among sources sharing a self-referential target depends on "
                                             "SQLAlchemy's unit-of-work order; the model fixes one order, the harness accepts exactly the admissible outcomes"}
-    rep.extra["schema"] = {"tables": len(tables), "association_tables": len(tags), "selfref_tags": sc["selfref"]}
-    rep.samples = [{"case": m["descr"], "features": m["ft"], "loaded_via": m["res"].get("via")} for m in metas[:: max(1, len(metas) // 5)]][:5]
+    rep.extra["schema"] = {"tables": len(sc["tables"]), "association_tables": len(sc["assoc"]), "selfref_tags": sc["selfref"]}
+    rep.samples = [{"case": m["descr"], "features": m["ft"], "loaded_via": m["res"].get("via"), "origin": m["origin"]} for m in metas[:: max(1, len(metas) // 5)]][:5]
     for m, why in bad[:5]:
         res0 = m["res"]
-
-        def fails(d, res0=res0):
-            res = run_impl(d)
-            if "exc" in res0:
-                return "exc" in res
-            if res0.get("py_iso") is None:
-                return False          # row-count / chain failures are not shrunk
-            return "exc" not in res and res.get("py_iso") is not None and not (
-                features(d)["selfref_shared"] and matches_admissible(d, res["_back"])) and not features(d)["repeated_elems"]
-        small = c04.shrink(m["descr"], fails, budget=60)
-        if small != m["descr"]:
-            r2 = run_impl(small)
-            m = {"descr": small, "origin": m["origin"] + " (shrunk)", "ft": features(small), "res": r2}
-            why = "exception " + r2["exc"] if "exc" in r2 else f"shrunk: {r2.get('py_iso')}"
-        rep.violation({"kind": "counterexample", "case": m["descr"], "origin": m["origin"], "features": m["ft"], "why": why,
-                       "impl_result_heap": m["res"].get("heap"),
-                       "table_counts": {k: v for k, v in (m["res"].get("table_counts") or {}).items() if v},
-                       "python": f"from harness import c05; print(c05.explain({m['descr']!r}))",
-                       "explanation": "the graph is built through the dataset constructors, to_dao, Session.add/commit on a fresh in-memory engine, "
-                                      "Session.get in a new Session, from_dao; compared with the input by canonical form and by python bisimulation"})
+        if not m.get("generated"):
+            def fails(d, res0=res0):
+                res = run_impl(d)
+                if "exc" in res0:
+                    return "exc" in res
+                if res0.get("py_iso") is None:
+                    return False          # row-count / chain failures are not shrunk
+                return "exc" not in res and res.get("py_iso") is not None and not (
+                    features(d)["selfref_shared"] and matches_admissible(d, res["_back"])) and not features(d)["repeated_elems"]
+            small = c04.shrink(m["descr"], fails, budget=60)
+            if small != m["descr"]:
+                r2 = run_impl(small)
+                m = {"descr": small, "origin": m["origin"] + " (shrunk)", "ft": features(small), "res": r2}
+                why = "exception " + r2["exc"] if "exc" in r2 else f"shrunk: {r2.get('py_iso')}"
+        rec = {"kind": "counterexample", "case": m["descr"], "origin": m["origin"], "features": m["ft"], "why": why,
+               "impl_result_heap": m["res"].get("heap"), "table_counts": m.get("table_counts_nz"),
+               "python": f"from harness import c05; print(c05.explain({m['descr']!r}))",
+               "explanation": "the graph is built through the class constructors, to_dao, Session.add/commit on a fresh in-memory engine, "
+                              "Session.get in a new Session, from_dao; compared with the input by canonical form and by python bisimulation"}
+        if m.get("generated"):
+            rec["model_source"] = m.get("source")
+            rec["python"] = ("# generated class model: save model_source as a module, generate its layer with ORMatic(ClassDiagram(classes)), "
+                             "then build the graph in 'case' (objs[i].c = class, s = scalar kwargs, r = reference fields by object index), "
+                             "to_dao -> add/commit -> new Session.get -> from_dao")
+        rep.violation(rec)
     if replay is None:
         for f in findings:
             w = json.loads((core.VERIF / f.witness).read_text())
@@ -496,3 +691,9 @@ def run(tier: str, seed: int, replay=None) -> int:
                 rep.violation({"kind": "counterexample", "case": w["case"], "why": f"regression of fixed finding {f.fid}",
                                "python": f"from harness import c05; print(c05.explain({w['case']!r}))"})
     return rep.finish()
+
+
+if __name__ == "__main__":
+    import sys
+    if len(sys.argv) > 1 and sys.argv[1] == "--worker":
+        sys.exit(_worker_main(sys.argv[2:]))
